@@ -181,6 +181,17 @@ class LoopView:
             raise AttributeError(k)
 
 
+def _mkey(m, k):
+    """a Python str used as key of a map whose keys are z3 strings"""
+    if isinstance(k, str) and m.dom.sort().domain() == z3.StringSort():
+        return z3.StringVal(k)
+    return k
+
+
+def _is_zstr(v):
+    return is_z3(v) and v.sort() == z3.StringSort()
+
+
 class AbstractGen:
     """The result of calling a generator that is under a contract of its own (modular use): the loop consuming it sees an
     arbitrary next item satisfying the per-yield postconditions (`next_item(I)` returns it, assuming them and updating ghost
@@ -665,7 +676,7 @@ class Interp:
         if kind == 'while':
             cond = self.truth(self.eval(node.test, env))
         elif isinstance(iterable, RangeVal):
-            cond = it < iterable.stop
+            cond = True if iterable.stop is None else it < iterable.stop      # stop None: itertools.count
         elif isinstance(iterable, AbstractGen):
             cond = P.fresh('more_items', z3.BoolSort())
         else:
@@ -875,7 +886,12 @@ class Interp:
     def binop(self, op, a, b):
         t = type(op)
         if isinstance(a, str) and t is ast.Mod:
+            args = b if isinstance(b, tuple) else (b,)
+            if any(_is_zstr(x) for x in args) and all(isinstance(x, str) or _is_zstr(x) or is_int(x) for x in args):
+                return self.format_symbolic(a, args)     # a name is being built from a symbolic string
             return a                  # message formatting: opaque
+        if t is ast.Add and (_is_zstr(a) or _is_zstr(b)) and (isinstance(a, str) or _is_zstr(a)) and (isinstance(b, str) or _is_zstr(b)):
+            return z3.Concat(a if _is_zstr(a) else z3.StringVal(a), b if _is_zstr(b) else z3.StringVal(b))
         if isinstance(a, PObj) or isinstance(b, PObj):
             nm = {ast.BitAnd: '__and__', ast.BitOr: '__or__', ast.BitXor: '__xor__', ast.Add: '__add__',
                   ast.Sub: '__sub__', ast.Mult: '__mul__', ast.MatMult: '__matmul__', ast.Mod: '__mod__', ast.Div: '__truediv__'}.get(t)
@@ -936,6 +952,36 @@ class Interp:
                     r = r * a
                 return r
         raise Unsupported("binary operator %s" % t.__name__)
+
+    def format_symbolic(self, fmt, args):
+        """'%s_%i' % (name, i) with symbolic arguments: z3 string built from the literal pieces, %s of a string value and
+        %i / %d of a non-negative integer (str.from_int); anything else is outside the executor"""
+        import re
+        pieces = re.split(r'(%[sid])', fmt)
+        out, k = [], 0
+        for p in pieces:
+            if p in ('%s', '%i', '%d'):
+                if k >= len(args):
+                    raise Unsupported("format string %r: too few arguments" % fmt)
+                v = args[k]
+                k += 1
+                if p == '%s' and isinstance(v, str):
+                    out.append(z3.StringVal(v))
+                elif p == '%s' and _is_zstr(v):
+                    out.append(v)
+                elif p in ('%i', '%d') and is_int(v):
+                    if not self.path.branch(v >= 0 if is_z3(v) else (v >= 0)):
+                        raise Unsupported("formatting a negative symbolic integer")
+                    out.append(z3.IntToStr(v if is_z3(v) else z3.IntVal(v)))
+                else:
+                    raise Unsupported("format %s of %r" % (p, v))
+            elif '%' in p:
+                raise Unsupported("format string %r" % fmt)
+            elif p:
+                out.append(z3.StringVal(p))
+        if k != len(args):
+            raise Unsupported("format string %r: too many arguments" % fmt)
+        return out[0] if len(out) == 1 else z3.Concat(*out)
 
     def ev_Compare(self, node, env):
         left = self.eval(node.left, env)
@@ -1039,6 +1085,8 @@ class Interp:
         if isinstance(a, str) or isinstance(b, str):
             if isinstance(a, str) and isinstance(b, str):
                 return a == b
+            if _is_zstr(a) or _is_zstr(b):
+                return (a if _is_zstr(a) else z3.StringVal(a)) == (b if _is_zstr(b) else z3.StringVal(b))
             return False
         if is_boolv(a) and is_boolv(b):
             return S.Iff(a, b)
@@ -1063,7 +1111,7 @@ class Interp:
         if isinstance(cont, SeqBox):
             return z3.Contains(cont.expr, z3.Unit(x))
         if isinstance(cont, MapBox):
-            return z3.Select(cont.dom, x)
+            return z3.Select(cont.dom, _mkey(cont, x))
         if isinstance(cont, dict):
             return x in cont
         if isinstance(cont, PObj) and '__contains__' in cont.methods:
@@ -1187,6 +1235,8 @@ class Interp:
             return obj.name
         if is_z3(obj) and '__getattr_symbolic__' in self.globals:
             return self.globals['__getattr_symbolic__'](self, obj, attr)
+        if _is_zstr(obj):
+            return BoundMethod(obj, attr)
         raise Unsupported("attribute %s of %r" % (attr, obj))
 
     def setattr(self, obj, attr, v):
@@ -1246,7 +1296,7 @@ class Interp:
                 i = self.norm_index(idx, n)
                 return obj.expr[i]
         if isinstance(obj, MapBox):
-            return self.map_get(obj, idx)
+            return self.map_get(obj, _mkey(obj, idx))
         if isinstance(obj, dict):
             if idx in obj:
                 return obj[idx]
@@ -1310,6 +1360,7 @@ class Interp:
                                  z3.SubSeq(obj.expr, i + 1, n - i - 1))
             return
         if isinstance(obj, MapBox):
+            idx = _mkey(obj, idx)
             obj.arr = z3.Store(obj.arr, idx, v)
             obj.dom = z3.Store(obj.dom, idx, z3.BoolVal(True))
             return
